@@ -85,8 +85,32 @@ def twin_obligations(repo: Repo, chk: Check) -> None:
         ap = [n for n in body_nodes(f.node) if isinstance(n, ast.Call) and unparse(n.func) == "AuthenticationProvider"]
         ok = len(ap) == 1 and [unparse(x) for x in ap[0].args] == ["username", "password", "server", "auth_protocol"]
         chk.ob("O1", Site.of(f, ap[0] if ap else None, None if ap else "AuthenticationProvider"), ok, "provider built from (username, password, server, auth_protocol)" if ok else "the authentication provider is not built from (username, password, server, auth_protocol)")
-        guard = [n for n in body_nodes(f.node) if isinstance(n, ast.If) and unparse(n.test) == "auth_protocol"]
-        chk.ob("O1", Site.of(f, guard[0] if guard else None, None if guard else "auth guard"), bool(guard), "authenticated iff an auth protocol is given")
+        # path-wise: the client object returned carries a provider exactly on the paths where auth_protocol is truthy
+        from sa.pathsum import Summary, canon_test
+
+        summ = Summary(f, prune=True)
+        bad = []
+        n_paths = 0
+        for ps in summ.returning():
+            n_paths += 1
+            pol: t.Optional[bool] = None
+            for e, p_ in ps.atoms():
+                core, p2 = canon_test(ps.owner.renamed(e), p_)  # type: ignore[arg-type]
+                if unparse(core) == "auth_protocol":
+                    pol = p2
+            ret = ps.value
+            prov = None
+            if isinstance(ret, ast.Call):
+                prov = next((k.value for k in ret.keywords if k.arg == "auth"), ret.args[-1] if ret.args else None)
+            ptxt = ps.text(prov) if prov is not None else "?"
+            if pol is None:
+                bad.append(f"a returning path does not depend on auth_protocol (provider: {ptxt})")
+            elif pol and not ptxt.startswith("AuthenticationProvider("):
+                bad.append(f"auth_protocol given but the client gets {ptxt}")
+            elif not pol and ptxt != "None":
+                bad.append(f"no auth_protocol but the client gets {ptxt}")
+        okg = not bad and n_paths >= 2
+        chk.ob("O1", Site.of(f, construct="auth guard"), okg, "authenticated iff an auth protocol is given (checked on every returning path)" if okg else "; ".join(sorted(set(bad))) or f"{n_paths} returning paths")
     chk.require_min("twin pairs", 5)
 
 
